@@ -312,7 +312,7 @@ func (c *specCtx) ident(name string) *SVal {
 				if isStructVal(v.Type()) {
 					return &SVal{T: ref, Ty: v.Type(), Obj: true}
 				}
-				return &SVal{T: e.load(c.st, &Loc{Kind: LGlobal, Key: "box$" + v.Name() + fmt.Sprint(v.Pos()), T: v.Type()}), Ty: v.Type()}
+				return &SVal{T: e.load(c.st, e.cellLoc(ref, v.Type())), Ty: v.Type()}
 			}
 			return &SVal{T: c.st.vars[v], Ty: v.Type()}
 		}
@@ -671,6 +671,11 @@ func (c *specCtx) call(x *SExpr) *SVal {
 		v := c.eval(x.Args[0])
 		t := e.resolveType(c.pkgPath, "*"+strings.TrimPrefix(x.Args[1].String(), "*"))
 		return &SVal{T: v.T, Ty: t}
+	case "deref":
+		// deref(p): the interface value stored in the cell p points to (p: pointer to an interface-typed variable)
+		v := c.eval(x.Args[0])
+		cells := e.Heap(c.st, "cell:iface", ArrSort(IntSort, IntSort))
+		return &SVal{T: Select(cells, v.T)}
 	case "empty":
 		// empty(K): the empty set over K
 		s, _ := c.sortOfTypeStr("set[" + x.Args[0].String() + "]")
